@@ -8,6 +8,9 @@ CONSTANTS
   Texts <- QTexts
   Valid <- QValid
   HashOf <- QHash
+  ImplHash <- QHash
+  AltHashes <- NoAlt
+  CanonOf <- NoCanon
   WrongHashes <- Wrong2
   Kinds <- BothKinds
   Caps <- Caps12
